@@ -20,6 +20,7 @@ restart file are replaced by in-memory stand-ins *in this driver only*.
 import importlib.util  # noqa: F401
 import copy
 import os
+import pickle
 import time
 
 import numpy as np
@@ -124,24 +125,28 @@ def signature(st, phase, flight):
 
 
 def snapshot(st, rig, flight, last_md):
+    """Pickled copy of the real object's state + the monitors that carry
+    history (the ProbMonitor only holds a cache and is left alone)."""
     from infretis.classes.repex import REPEX_state
     d = {k: v for k, v in st.__dict__.items()
          if k not in ("pstore", "write_toml")}
-    return copy.deepcopy((d, dict(REPEX_state.traj_data),
-                          [m.__dict__ for m in rig.monitors], flight,
-                          last_md))
+    mons = [m.__dict__ for m in rig.monitors
+            if type(m).__name__ != "ProbMonitor"]
+    return pickle.dumps((d, dict(REPEX_state.traj_data), mons, flight,
+                         last_md), protocol=pickle.HIGHEST_PROTOCOL)
 
 
 def restore(st, rig, snap):
     from infretis.classes.repex import REPEX_state
-    d, td, mons, flight, last_md = copy.deepcopy(snap)
+    d, td, mons, flight, last_md = pickle.loads(snap)
     keep = {k: st.__dict__[k] for k in ("pstore", "write_toml")}
     st.__dict__.clear()
     st.__dict__.update(d)
     st.__dict__.update(keep)
     REPEX_state.traj_data.clear()
     REPEX_state.traj_data.update(td)
-    for m, md in zip(rig.monitors, mons):
+    live = [m for m in rig.monitors if type(m).__name__ != "ProbMonitor"]
+    for m, md in zip(live, mons):
         m.__dict__.clear()
         m.__dict__.update(md)
     return flight, last_md
@@ -263,11 +268,11 @@ def explore(size, workers, budget_s, scratch, max_states=None):
 
 def plan(tier, seed):
     if tier == "quick":
-        combos = [(2, 1, 60), (3, 1, 60), (3, 2, 90), (4, 1, 45), (4, 2, 45),
-                  (4, 3, 45)]
+        combos = [(2, 1, 60), (3, 1, 60), (3, 2, 90), (4, 1, 240), (4, 2, 90),
+                  (4, 3, 90)]
     else:
         combos = [(2, 1, 120), (3, 1, 300), (3, 2, 600), (4, 1, 900),
-                  (4, 2, 1300), (4, 3, 1300)]
+                  (4, 2, 2400), (4, 3, 2400)]
     return [{"kind": "explore", "size": s, "workers": w, "budget": b,
              "hashseed": 0} for s, w, b in combos]
 
